@@ -1454,6 +1454,8 @@ class AEval(dtable.Eval):
             v = self._str_method(m, r[1], args, e)
             if v is not None:
                 return v
+            if m in ("iter",) and not args:
+                return L(*[I(b) for b in r[1].encode()])      # a str seen as `&[u8]` (AsRef<[u8]>): its bytes
         if m == "not" and r[0] == "bool" and not args:
             return B(not r[1])
         if m == "transpose" and r[0] == "ctor" and not args:
@@ -1746,6 +1748,13 @@ class AEval(dtable.Eval):
             return C("Some", self.apply(args[0], [])) if r[1] else C("None")
         if r[0] == "bool" and m == "then_some":
             return C("Some", args[0]) if r[1] else C("None")
+        if r[0] == "int" and not args and m in ("is_ascii_alphabetic", "is_ascii_digit", "is_ascii_alphanumeric", "is_ascii_whitespace", "is_ascii_uppercase", "is_ascii_lowercase",
+                                                "is_ascii_punctuation", "is_ascii_graphic", "is_ascii_hexdigit", "is_ascii_control", "is_ascii") and 0 <= r[1] < 256:
+            ch = chr(r[1])
+            a_ = r[1] < 128
+            return B({"is_ascii_alphabetic": a_ and ch.isalpha(), "is_ascii_digit": ch in "0123456789", "is_ascii_alphanumeric": a_ and ch.isalnum(), "is_ascii_whitespace": ch in " \t\n\r\x0c",
+                      "is_ascii_uppercase": a_ and ch.isupper(), "is_ascii_lowercase": a_ and ch.islower(), "is_ascii_punctuation": a_ and ch in "!\"#$%&'()*+,-./:;<=>?@[\\]^_`{|}~",
+                      "is_ascii_graphic": 33 <= r[1] <= 126, "is_ascii_hexdigit": ch in "0123456789abcdefABCDEF", "is_ascii_control": r[1] < 32 or r[1] == 127, "is_ascii": a_}[m])
         if r[0] == "int" and m == "div_ceil" and len(args) == 1 and args[0][0] == "int" and args[0][1] != 0:
             return I(-(-r[1] // args[0][1]))
         if r[0] == "int" and m in ("min", "max", "saturating_sub", "checked_sub", "wrapping_add") and len(args) == 1 and args[0][0] == "int":
@@ -1888,6 +1897,8 @@ class AEval(dtable.Eval):
                 return C("Some", ("str", t[len(sa):])) if t.startswith(sa) else C("None")
             if m == "strip_suffix":
                 return C("Some", ("str", t[:len(t) - len(sa)])) if t.endswith(sa) else C("None")
+        if m in ("bytes", "as_bytes", "into_bytes") and not args:
+            return L(*[I(b) for b in t.encode()])
         if m == "parse" and not args:
             ty = re.sub(r"\s+", "", (e or {}).get("turbofish") or "") if isinstance(e, dict) else ""
             ty = ty.strip("<>:")
